@@ -230,6 +230,11 @@ type Summary struct {
 
 // Run executes the behaviours of this shard on the adapter and writes the trace.
 func Run(name string, behs []Behaviour, shard, nshard int, outPath string) (*Summary, error) {
+	return RunIndexed(name, behs, nil, shard, nshard, outPath)
+}
+
+// RunIndexed is Run with the global index of every behaviour given explicitly (behaviour files).
+func RunIndexed(name string, behs []Behaviour, index []int, shard, nshard int, outPath string) (*Summary, error) {
 	mk, ok := Lookup(name)
 	if !ok {
 		return nil, fmt.Errorf("unknown adapter %q (have %s)", name, strings.Join(Names(), " "))
@@ -263,8 +268,11 @@ func Run(name string, behs []Behaviour, shard, nshard int, outPath string) (*Sum
 		sum.Lines++
 		return enc.Encode(fl)
 	}
-	for bi, b := range behs {
-		if bi%nshard != shard {
+	for li, b := range behs {
+		bi := li
+		if index != nil {
+			bi = index[li]
+		} else if li%nshard != shard {
 			continue
 		}
 		fl, err := ad.Reset(b.Init())
@@ -351,4 +359,102 @@ func DriverNames() []string {
 	}
 	sort.Strings(out)
 	return out
+}
+
+// ---- behaviour files: tours are computed once (vh tours) and executed by shards (vh replay -beh) ----
+
+type behFileState struct {
+	State int    `json:"state"`
+	Text  string `json:"text"`
+}
+
+type behFileBeh struct {
+	Init  int             `json:"init"`
+	Steps [][]interface{} `json:"steps"` // [label, post state index]
+}
+
+// WriteBehaviours writes behaviours shard by shard: file i gets behaviours with index%n == i.
+func WriteBehaviours(prefix string, behs []Behaviour, n int) ([]string, error) {
+	var files []string
+	for sh := 0; sh < n; sh++ {
+		path := fmt.Sprintf("%s.%d.beh", prefix, sh)
+		f, err := os.Create(path)
+		if err != nil {
+			return nil, err
+		}
+		w := bufio.NewWriterSize(f, 1<<20)
+		enc := json.NewEncoder(w)
+		idx := map[string]int{}
+		st := func(s string) int {
+			if i, ok := idx[s]; ok {
+				return i
+			}
+			i := len(idx)
+			idx[s] = i
+			enc.Encode(behFileState{State: i, Text: s})
+			return i
+		}
+		for bi, b := range behs {
+			if bi%n != sh {
+				continue
+			}
+			rec := behFileBeh{Init: st(b.init), Steps: [][]interface{}{}}
+			for _, s := range b.Steps {
+				rec.Steps = append(rec.Steps, []interface{}{s.Act.String(), st(s.post)})
+			}
+			enc.Encode(map[string]interface{}{"beh": rec, "index": bi})
+		}
+		if err := w.Flush(); err != nil {
+			return nil, err
+		}
+		f.Close()
+		files = append(files, path)
+	}
+	return files, nil
+}
+
+// ReadBehaviours reads one behaviour file; returns the behaviours and their global indices.
+func ReadBehaviours(path string) ([]Behaviour, []int, error) {
+	f, err := os.Open(path)
+	if err != nil {
+		return nil, nil, err
+	}
+	defer f.Close()
+	sc := bufio.NewScanner(f)
+	sc.Buffer(make([]byte, 1<<20), 1<<28)
+	states := map[int]string{}
+	var out []Behaviour
+	var index []int
+	for sc.Scan() {
+		var raw map[string]json.RawMessage
+		if err := json.Unmarshal(sc.Bytes(), &raw); err != nil {
+			return nil, nil, err
+		}
+		if _, ok := raw["state"]; ok {
+			var s behFileState
+			json.Unmarshal(sc.Bytes(), &s)
+			states[s.State] = s.Text
+			continue
+		}
+		var rec behFileBeh
+		if err := json.Unmarshal(raw["beh"], &rec); err != nil {
+			return nil, nil, err
+		}
+		var gi int
+		json.Unmarshal(raw["index"], &gi)
+		b := Behaviour{init: states[rec.Init]}
+		prev := b.init
+		for _, st := range rec.Steps {
+			a, err := tla.ParseAction(st[0].(string))
+			if err != nil {
+				return nil, nil, err
+			}
+			post := states[int(st[1].(float64))]
+			b.Steps = append(b.Steps, Step{Act: a, pre: prev, post: post})
+			prev = post
+		}
+		out = append(out, b)
+		index = append(index, gi)
+	}
+	return out, index, sc.Err()
 }
